@@ -51,8 +51,21 @@ def intArcs (f : Func) (bs : List Nat) : List Nat := bs.flatMap (intIn f bs)
 
 def intSum (f : Func) (cnt : Nat → Nat) (bs : List Nat) : Nat := ((intArcs f bs).map cnt).sum
 
+/-- total count of the arcs into block `b` -/
+def inflow (f : Func) (cnt : Nat → Nat) (b : Nat) : Nat :=
+  match f.blocks[b]? with
+  | none => 0
+  | some blk => (blk.source.map cnt).sum
+
 /-- sum of the block counters of the occurrences -/
 def blkSum (blk : Nat → Nat) (bs : List Nat) : Nat := (bs.map blk).sum
+
+/-- the block numbered 0 (the entry block) has no predecessor among `bs` -/
+def entryNoPredB (f : Func) (bs : List Nat) : Bool :=
+  bs.all fun b =>
+    match f.blocks[b]? with
+    | none => true
+    | some blk => decide (blk.no ≠ 0) || (intIn f bs b).isEmpty
 
 /-! ### certificates -/
 
